@@ -16,10 +16,15 @@ package transforms32
 //@   trusted floating-point DCT; only the frame is used
 //@   modifies mem(*input)
 
+// verified: the medians leave the caller's coefficients alone (selection on a private copy); only the quick-select is trusted
 //@ func MedianOfPixels64
-//@   trusted quick-select on a private copy; only purity is used
-//@   pure
+//@   props C19
+//@   modifies nothing
 
 //@ func MedianOfPixels256
-//@   trusted quick-select on a private copy; only purity is used
-//@   pure
+//@   props C19
+//@   modifies nothing
+
+//@ func quickSelectMedian
+//@   trusted floating-point quick-select; only the frame (permutes the slice it is given) is used
+//@   modifies mem(sequence)
